@@ -152,8 +152,10 @@ func (fc *FuncCtx) call(fr *Frame, st *State, res ssa.Value, call *ssa.CallCommo
 			}
 			if c, ok := fc.p.ifaceContracts[pk+"::"+key]; ok {
 				sig := call.Method.Type().(*types.Signature)
+				fc.closurePreserves(fr, st, call, nil, args, c, false, pos)
 				setRes(fc.callByContract(fr, st, nil, c, sig, args, pos, key, true))
 				fc.havocClosureArgs(fr, st, call)
+				fc.closurePreserves(fr, st, call, nil, args, c, true, pos)
 				return
 			}
 			unsupp("dynamic call %s.%s at %s (no interface contract %s)", call.Value.Type(), call.Method.Name(), fc.p.pos(pos), key)
@@ -196,8 +198,10 @@ func (fc *FuncCtx) call(fr *Frame, st *State, res ssa.Value, call *ssa.CallCommo
 	// 1. extern model
 	if ext := fc.p.externFor(callee); ext != nil {
 		fc.note("assumed contract for " + fullName(callee))
+		fc.closurePreserves(fr, st, call, callee, args, ext, false, pos)
 		setRes(fc.callByContract(fr, st, callee, ext, callee.Signature, args, pos, fullName(callee), true))
 		fc.havocClosureArgs(fr, st, call)
+		fc.closurePreserves(fr, st, call, callee, args, ext, true, pos)
 		return
 	}
 	if special, ok := fc.specialExtern(fr, st, callee, args, pos); ok {
@@ -209,8 +213,10 @@ func (fc *FuncCtx) call(fr *Frame, st *State, res ssa.Value, call *ssa.CallCommo
 		if c.Trusted {
 			fc.note("trusted contract for " + fullName(callee) + ": " + c.TrustWhy)
 		}
+		fc.closurePreserves(fr, st, call, callee, args, c, false, pos)
 		setRes(fc.callByContract(fr, st, callee, c, callee.Signature, args, pos, funcKey(callee), false))
 		fc.havocClosureArgs(fr, st, call)
+		fc.closurePreserves(fr, st, call, callee, args, c, true, pos)
 		return
 	}
 	// 3. inline
@@ -377,6 +383,106 @@ func (fc *FuncCtx) havocClosureArgs(fr *Frame, st *State, call *ssa.CallCommon) 
 			if mi.heaps["ghost:"+g] || mi.heaps["ghost:chan"] {
 				st.ghost[g] = Fresh("ghost."+g+".clo", SInt)
 			}
+		}
+	}
+}
+
+// closurePreserves handles the `preserves` clauses of the function literals handed to a callee that is used through
+// its contract cc. Before the call (after == false) each clause is an obligation in the caller's state, the captured
+// variables standing for the caller's locals; after the call and the havoc of the literal's effects (after == true)
+// it is assumed. This is the invariant rule for an iterator that only calls its argument: the literal's own contract
+// proves that each of its activations re-establishes the clause from the clause alone (it is its only precondition),
+// and the callee writes nothing itself (`modifies nothing`), so the clause holds between the activations and at the end.
+func (fc *FuncCtx) closurePreserves(fr *Frame, st *State, call *ssa.CallCommon, callee *ssa.Function, args []Val, cc *Contract, after bool, pos token.Pos) {
+	for _, a := range call.Args {
+		mc, ok := a.(*ssa.MakeClosure)
+		if !ok {
+			continue
+		}
+		cf := mc.Fn.(*ssa.Function)
+		lc := fc.p.contractOf(cf)
+		if lc == nil || (len(lc.Preserves) == 0 && lc.IteratedBy == "") {
+			continue
+		}
+		if !cc.ModifiesSet || len(cc.Modifies) != 0 {
+			unsupp("preserves clauses of %s: the callee at %s must be declared `modifies nothing`", funcKey(cf), fc.p.pos(pos))
+		}
+		if len(lc.Requires) != len(lc.Preserves)+len(lc.IterInvs) {
+			unsupp("preserves clauses of %s: a function literal handed to a contracted callee cannot have other preconditions (no call site could establish them)", funcKey(cf))
+		}
+		if lc.Trusted {
+			unsupp("preserves clauses of %s: the contract of the function literal must be proved, not trusted", funcKey(cf))
+		}
+		env := &Env{p: fc.p, pkg: cf.Pkg.Pkg, vars: map[string]SVal{}, cur: st}
+		for k, fv := range cf.FreeVars {
+			al, ok := mc.Bindings[k].(*ssa.Alloc)
+			if !ok {
+				continue
+			}
+			if v, ok := st.cells[al]; ok && v.T != nil {
+				env.vars[fv.Name()] = SVal{T: v.T, Typ: al.Type().Underlying().(*types.Pointer).Elem()}
+			}
+		}
+		if lc.IteratedBy != "" && callee != nil && len(callee.Params) > 0 && len(args) > 0 && args[0].T != nil {
+			env.vars["$it"] = SVal{T: args[0].T, Typ: callee.Params[0].Type()} // the iterator's receiver
+		}
+		for _, pc := range lc.Preserves {
+			t, err := env.ElabBool(pc.Expr)
+			if err != nil {
+				panic(elabErr{fmt.Sprintf("%s:%d: preserves of %s at %s: %v", lc.File, pc.Line, funcKey(cf), fc.p.pos(pos), err)})
+			}
+			if after {
+				st.assume(t)
+			} else {
+				fc.addSplit(fr, st, "closure-inv", funcKey(cf)+":"+pc.Text, t, pos, "invariant of the function literal holds before it is handed to the iterator")
+			}
+		}
+		if lc.IteratedBy != "" {
+			// iterator protocol: the literal was verified as one activation of the loop of this very callee
+			if callee == nil || callee != fc.p.funcs[lc.Pkg+"::"+lc.IteratedBy] || len(args) == 0 || args[0].T == nil {
+				unsupp("function literal %s is declared iterated_by %s but is handed to another callee at %s", funcKey(cf), lc.IteratedBy, fc.p.pos(pos))
+			}
+			recv := SVal{T: args[0].T, Typ: callee.Params[0].Type()}
+			_, ip, penv := fc.iterProtoEnv(lc, recv, st)
+			env.vars["$it"] = recv
+			elabAll := func(cls []*Clause) *Term {
+				out := True
+				for _, ic := range cls {
+					t, err := env.ElabBool(ic.Expr)
+					if err != nil {
+						panic(elabErr{fmt.Sprintf("%s:%d: %s of %s at %s: %v", lc.File, ic.Line, ic.Kind, funcKey(cf), fc.p.pos(pos), err)})
+					}
+					out = And(out, t)
+				}
+				return out
+			}
+			if !after {
+				if fc.iterPre == nil {
+					fc.iterPre = map[*ssa.CallCommon]*Term{}
+				}
+				fc.iterPre[call] = penv.elab(ip.Stable).T
+				env.vars["$k"] = SVal{T: IntLit(0), Typ: tInt}
+				for _, ic := range lc.IterInvs {
+					t, err := env.ElabBool(ic.Expr)
+					if err != nil {
+						panic(elabErr{fmt.Sprintf("%s:%d: iterinv of %s at %s: %v", lc.File, ic.Line, funcKey(cf), fc.p.pos(pos), err)})
+					}
+					fc.addSplit(fr, st, "iter-inv0", funcKey(cf)+":"+ic.Text, t, pos, "indexed invariant of the function literal holds for $k == 0 before it is handed to the iterator")
+				}
+			} else {
+				// every activation left <stable> unchanged; either no activation returned true and the invariant
+				// holds for $k == count, or one did and the stop condition holds
+				st.assume(Eq(penv.elab(ip.Stable).T, fc.iterPre[call]))
+				env.vars["$k"] = SVal{T: penv.elab(ip.Count).T, Typ: tInt}
+				stop := False
+				if len(lc.IterStops) > 0 {
+					stop = elabAll(lc.IterStops)
+				}
+				st.assume(Or(elabAll(lc.IterInvs), stop))
+			}
+		}
+		if after {
+			fc.note("preserved invariant of the function literal " + funcKey(cf) + " is assumed after " + call.String() + " (proved for the literal, established before the call; the callee modifies nothing)")
 		}
 	}
 }
